@@ -153,3 +153,31 @@ Definition store_consistent (pids : list (N * N * list N)) (keys : list (N * N *
 (* every variable-size top-level group has at least one token per block *)
 Definition gtok_ok (fs : list fd) : bool :=
   forallb (fun g => fixed_size g || negb (fst (block_tokens g) =? 0)) (filter is_group fs).
+
+(* ---------------------------------------------------------------- store lookups
+   RootPidStore as a finite map over the exported table: tbl = (manufacturer id, PID value, name),
+   ids = manufacturer ids that own a store (0 = the ESTA store, which is kept apart).
+   Mirrors RootPidStore::ManufacturerStore / GetDescriptor (4 overloads) / PidStore::LookupPID. *)
+Definition pid_entry : Type := (N * N * list N)%type.
+Definition find_pid (tbl : list pid_entry) (man pid : N) : option pid_entry :=
+  find (fun e => (fst (fst e) =? man) && (snd (fst e) =? pid)) tbl.
+Definition find_name (tbl : list pid_entry) (man : N) (name : list N) : option pid_entry :=
+  find (fun e => (fst (fst e) =? man) && list_eqb (snd e) name) tbl.
+(* m_manufacturer_store.find(id): the ESTA store is not in that map *)
+Definition has_store (ids : list N) (man : N) : bool := negb (man =? 0) && existsb (N.eqb man) ids.
+Definition to_upper (b : N) : N := if (97 <=? b) && (b <=? 122) then b - 32 else b.   (* ola::ToUpper *)
+(* GetDescriptor(pid_value, manufacturer_id): ESTA store first, then that manufacturer's store *)
+Definition get_by_pid (tbl : list pid_entry) (ids : list N) (pid man : N) : option pid_entry :=
+  match find_pid tbl 0 pid with
+  | Some e => Some e
+  | None => if has_store ids man then find_pid tbl man pid else None
+  end.
+(* GetDescriptor(pid_name, manufacturer_id): the name is upper-cased first *)
+Definition get_by_name (tbl : list pid_entry) (ids : list N) (name : list N) (man : N) : option pid_entry :=
+  let n := map to_upper name in
+  match find_name tbl 0 n with
+  | Some e => Some e
+  | None => if has_store ids man then find_name tbl man n else None
+  end.
+Definition store_count (tbl : list pid_entry) (man : N) : N :=
+  len (filter (fun e => fst (fst e) =? man) tbl).
